@@ -55,7 +55,7 @@ impl Timer {
     pub fn precision(self) -> FineDuration {
         // Under a virtual clock, measure on every call instead of caching.
         #[cfg(feature = "verif_hooks")]
-        if crate::verif::virtual_tsc_installed() {
+        if crate::verif::virtual_clock_installed() {
             return self.measure_precision();
         }
 
@@ -148,7 +148,7 @@ impl Timer {
     pub fn bench_overheads(self) -> &'static TimedOverhead {
         // Under a virtual clock, overheads are zero (same as under Miri).
         #[cfg(feature = "verif_hooks")]
-        if crate::verif::virtual_tsc_installed() {
+        if crate::verif::virtual_clock_installed() {
             return &TimedOverhead::ZERO;
         }
 
